@@ -172,19 +172,30 @@ InstSeq ==
       Inst("HandyMod", 5), Inst("HandyMod", 6)>>
 NInst == Len(InstSeq)
 
+Alt1(p1_) == Div(One, p1_)
+Alt2(p1_, p2_) == Neg(Div(p2_, Pow(p1_, 3)))
+Alt3(p1_, p2_, p3_) == Div(Sub(Mul(CI(3), Pow(p2_, 2)), Mul(p1_, p3_)), Pow(p1_, 5))
 TreesOf(c_) ==
     LET f_ == Forward(c_.cls, c_.ip)
         g_ == Inverse(c_.cls, c_.ip)
         d1_ == D(f_, "x")  d2_ == D(d1_, "x")  d3_ == D(d2_, "x")
         g1_ == D(g_, "r")  g2_ == D(g1_, "r")  g3_ == D(g2_, "r")
-    IN [F |-> f_, G |-> g_, d1 |-> d1_, d2 |-> d2_, d3 |-> d3_, g1 |-> g1_, g2 |-> g2_, g3 |-> g3_]
+    IN [F |-> f_, G |-> g_, d1 |-> d1_, d2 |-> d2_, d3 |-> d3_, g1 |-> g1_, g2 |-> g2_, g3 |-> g3_,
+        \* the inverse-function-theorem expressions of D^n(G) in terms of D^n(F) (trees in x, to be
+        \* taken at x = G(r)) and of D^n(F) in terms of D^n(G) (trees in r, at r = F(x)): TLC checks
+        \* that they equal g1, g2, g3 (InverseDeriv1..3); the harness uses them only to estimate
+        \* the rounding error of an implementation that computes the derivatives this way
+        a1 |-> Alt1(d1_), a2 |-> Alt2(d1_, d2_), a3 |-> Alt3(d1_, d2_, d3_),
+        b1 |-> Alt1(g1_), b2 |-> Alt2(g1_, g2_), b3 |-> Alt3(g1_, g2_, g3_)]
 Trees == Force([j_ \in 1..NInst |-> TreesOf(InstSeq[j_])])
 Decls == Force([j_ \in 1..NInst |-> Decl(InstSeq[j_].cls, InstSeq[j_].ip)])
 
 \* InverseRTransform(tf): the role swap.  transform = G, inverse = F, deriv = D(G), ...
 InverseTrees(t_) == [F |-> Subst(t_.G, "r", xE), G |-> Subst(t_.F, "x", rE),
                      d1 |-> Subst(t_.g1, "r", xE), d2 |-> Subst(t_.g2, "r", xE), d3 |-> Subst(t_.g3, "r", xE),
-                     g1 |-> Subst(t_.d1, "x", rE), g2 |-> Subst(t_.d2, "x", rE), g3 |-> Subst(t_.d3, "x", rE)]
+                     g1 |-> Subst(t_.d1, "x", rE), g2 |-> Subst(t_.d2, "x", rE), g3 |-> Subst(t_.d3, "x", rE),
+                     a1 |-> Subst(t_.b1, "r", xE), a2 |-> Subst(t_.b2, "r", xE), a3 |-> Subst(t_.b3, "r", xE),
+                     b1 |-> Subst(t_.a1, "x", rE), b2 |-> Subst(t_.a2, "x", rE), b3 |-> Subst(t_.a3, "x", rE)]
 InverseDecl(dc_) == [dc_ EXCEPT !.dom = dc_.cod, !.cod = dc_.dom]
 
 (***************************************************************************)
@@ -198,10 +209,6 @@ Thorough == Tier = "thorough"
 Cross2(n1_, s1_, n2_, s2_) ==
     [i_ \in 1..(Len(s1_) * Len(s2_)) |->
         (n1_ :> s1_[((i_ - 1) \div Len(s2_)) + 1]) @@ (n2_ :> s2_[((i_ - 1) % Len(s2_)) + 1])]
-Cross3(n1_, s1_, n2_, s2_, n3_, s3_) ==
-    LET c_ == Cross2(n2_, s2_, n3_, s3_) IN
-    [i_ \in 1..(Len(s1_) * Len(c_)) |->
-        (n1_ :> s1_[((i_ - 1) \div Len(c_)) + 1]) @@ c_[((i_ - 1) % Len(c_)) + 1]]
 
 RminSeq == IF Thorough THEN <<Q(0, 1), Q(1, 10), Q(1, 2), Q(1, 1), Q(2, 1)>> ELSE <<Q(0, 1), Q(1, 10), Q(1, 1)>>
 RSeq    == IF Thorough THEN <<Q(1, 4), Q(1, 2), Q(1, 1), Q(3, 2), Q(2, 1), Q(7, 3), Q(5, 1), Q(10, 1)>>
@@ -343,12 +350,14 @@ G3x == AtR(CT.g3, CEnv, Fx)
 \* the inverse undoes the forward map
 RoundTrip == Checking => XEqU(AtR(CT.G, CEnv, Fx), XQ(CX))
 \* D(G)(F(x)) * D(F)(x) = 1
-InverseDeriv1 == Checking /\ FirstOrderOK => XEqU(XMul(G1x, D1x), XI(1))
-\* D^2(G)(F(x)) = - D^2(F)(x) / D(F)(x)^3
-InverseDeriv2 == Checking /\ FirstOrderOK => XEqU(G2x, XNeg(XDiv(D2x, XPowI(D1x, 3))))
-\* D^3(G)(F(x)) = (3 D^2(F)^2 - D(F) D^3(F)) / D(F)^5
-InverseDeriv3 == Checking /\ FirstOrderOK =>
-    XEqU(G3x, XDiv(XSub(XMul(XI(3), XPowI(D2x, 2)), XMul(D1x, D3x)), XPowI(D1x, 5)))
+InverseDeriv1 == Checking /\ FirstOrderOK => XEqU(XMul(G1x, D1x), XI(1)) /\ XEqU(G1x, AtX(CT.a1, CEnv, XQ(CX)))
+\* D^2(G)(F(x)) = - D^2(F)(x) / D(F)(x)^3     (tree a2)
+InverseDeriv2 == Checking /\ FirstOrderOK => XEqU(G2x, AtX(CT.a2, CEnv, XQ(CX)))
+\* D^3(G)(F(x)) = (3 D^2(F)^2 - D(F) D^3(F)) / D(F)^5     (tree a3)
+InverseDeriv3 == Checking /\ FirstOrderOK => XEqU(G3x, AtX(CT.a3, CEnv, XQ(CX)))
+\* and the other way round: D^n(F)(x) from D^n(G) at r = F(x)   (trees b1, b2, b3)
+ForwardFromInverse == Checking /\ FirstOrderOK =>
+    /\ XEqU(D1x, AtR(CT.b1, CEnv, Fx)) /\ XEqU(D2x, AtR(CT.b2, CEnv, Fx)) /\ XEqU(D3x, AtR(CT.b3, CEnv, Fx))
 \* the direction is decided for every parameter set of the lattice
 DirectionDecided == phase = "block" => Direction(cinst, CEnv) # 0
 \* sign of the first derivative = direction derived from the reference end points
@@ -386,7 +395,10 @@ EmitValues == Checking =>
 EmitEnds == phase = "block" =>
     PrintT(<<"END", cinst, cpar, Enc(RefImages(cinst, CEnv)[1]), Enc(RefImages(cinst, CEnv)[2]), Direction(cinst, CEnv)>>)
 
-\* non-vacuity witnesses (negated in their own tiny runs: TLC must find a counterexample)
+\* non-vacuity witnesses.  The harness establishes non-vacuity from the END / VAL records of the
+\* run itself (a decreasing map, an infinite end-point image, third-order identities decided for
+\* maps with roots); the negated forms below are for manual runs: used as INVARIANT, TLC must
+\* report each of them violated.
 NoDecreasingMap == ~(phase = "block" /\ Direction(cinst, CEnv) = -1)
 NoHighOrderRoot == ~(Checking /\ ~IsOvf(G3x) /\ ~IsOvf(D3x) /\ InstSeq[cinst].ip >= 2 /\ InstSeq[cinst].cls = "HandyMod")
 NoInfiniteEnd == ~(phase = "block" /\ IsInf(RefImages(cinst, CEnv)[1]))
@@ -533,7 +545,8 @@ EmitGrid == Gridding =>
     PrintT(<<"GRID", cinst, cpar, crule, [i_ \in Idx |-> Enc(CGrid.nodes[i_])], [i_ \in Idx |-> Enc(CGrid.weights[i_])],
              <<Enc(CGrid.domain[1]), Enc(CGrid.domain[2])>>, Direction(cinst, CEnv4)>>)
 
-\* non-vacuity witnesses for C04 (negated in their own runs)
+\* non-vacuity witnesses for C04 (established by the harness from the GRID records; as INVARIANT
+\* each of these must be reported violated)
 NoNegativeJacobian == ~(Gridding /\ \E i_ \in Idx : ~IsOvf(CGrid.jac[i_]) /\ XSgn(CGrid.jac[i_]) < 0)
 NoInfiniteNode == ~(Gridding /\ \E i_ \in Idx : IsInf(CGrid.nodes[i_]))
 NoInferredB == ~(Gridding /\ Decls[cinst].binfer /\ "b" \notin DOMAIN ParamLattice4[cinst][cpar])
